@@ -16,6 +16,7 @@ import Pamiq.Model.AdjustDriver
 import Pamiq.Model.TrainerDriver
 import Pamiq.Model.GymDriver
 import Pamiq.Model.QueueDriver
+import Pamiq.Model.TorchSyncDriver
 open Pamiq
 
 structure DState where
@@ -40,6 +41,8 @@ structure DState where
   gym : Gym.DSt := {}
   -- Queue (C07)
   queue : Queue.DSt := {}
+  -- C19 (TorchSync)
+  torchsync : TorchSync.DSt := none
 
 def handle (st : DState) (line : String) : DState × String :=
   match (line.trimAscii.toString.splitOn " ").filter (· ≠ "") with
@@ -92,6 +95,10 @@ def handle (st : DState) (line : String) : DState × String :=
   | "queue" :: rest =>
     let (d, out) := Queue.drive st.queue rest
     ({ st with queue := d }, out)
+  -- C19 (TorchSync)
+  | "torchsync" :: rest =>
+    let (t, out) := TorchSync.drive st.torchsync rest
+    ({ st with torchsync := t }, out)
   | _ => (st, "bad-op")
 
 partial def loop (h : IO.FS.Stream) (out : IO.FS.Stream) (st : DState) : IO Unit := do
